@@ -2,8 +2,10 @@
 The CONCRETE emitter of the loader, assembled from the models of the other properties:
 
   `emit_js` (graphql-loader/src/loader.rs) =
+      `task.get_root_document()`                                              — the file held under the root name AS SUPPLIED
       `resolve_operation_imports((root, ..), TaskOperationResolver(task))`   — `Model/Imports.lean` (C13) through
-                                                                               `Composed.resolveDoc`
+                                                                               `Composed.resolveDoc`, started from the
+                                                                               NORMALISED root name (`Params.norm`)
       `find_undefined_fragment_spread` (fix 08fd7e5)                          — `Composed.findUndefined`
       `print_js` = `print_js_for_operation_document`                          — statements: `Model/Exports.lean` (C14, the
                                                                                loader never marks a fragment imported);
